@@ -237,6 +237,9 @@ pub struct Runner<'a> {
     /// key touched by the last call step (for history building)
     pub last_touched: Option<Vec<u8>>,
     pub marks: Option<crate::trace::DeviceRef>,
+    /// fault engine: the device whose plan may make flush fail
+    pub fault_dev: Option<crate::trace::DeviceRef>,
+    pub poisoned: bool,
 }
 
 fn key_id_of(case: &Case, key: &[u8]) -> u16 {
@@ -298,6 +301,8 @@ impl<'a> Runner<'a> {
             readback_policy: None,
             last_touched: None,
             marks,
+            fault_dev: None,
+            poisoned: false,
         })
     }
 
@@ -1167,6 +1172,7 @@ impl<'a> Runner<'a> {
     }
 
     fn do_flush(&mut self, step: usize) -> Result<(), Failure> {
+        let faults_before = self.fault_dev.as_ref().map(|d| d.lock().unwrap().faults_injected);
         let r = {
             let _g = env::watch("flush");
             self.store().flush()
@@ -1200,8 +1206,24 @@ impl<'a> Runner<'a> {
                     .iter()
                     .filter(|r| r.sector == 0)
                     .any(|r| layout::record_blocks(snap.format_version, r.key.len(), r.value_len) as u64 > largest_free);
+                // an Io error needs a fault consumed during this flush; an indeterminate error may
+                // stem from any earlier fault (a background flush may have poisoned the device)
+                let faulted = match (&self.fault_dev, faults_before) {
+                    (Some(d), Some(before)) => {
+                        let now = d.lock().unwrap().faults_injected;
+                        now > before || self.poisoned || (kind == ErrKind::Indeterminate && now > 0)
+                    }
+                    _ => false,
+                };
                 if kind == ErrKind::OutOfSpace && self.cfg.persistent && unfit {
                     self.stats.hit("flush_out_of_space");
+                    Ok(())
+                } else if faulted && matches!(kind, ErrKind::Io | ErrKind::Indeterminate | ErrKind::OutOfSpace | ErrKind::Other(_)) {
+                    // an injected device fault surfaced (or the device is poisoned until restart)
+                    if kind == ErrKind::Indeterminate {
+                        self.poisoned = true;
+                    }
+                    self.stats.hit("flush_failed_under_fault");
                     Ok(())
                 } else if self.flags.results {
                     Err(self.fail("results", "flush-error", step, format!("flush() failed with {e:?} on a healthy device ({live_blocks} live blocks + {} written since last flush, {data_blocks} data blocks)", self.blocks_since_flush)))
